@@ -28,5 +28,6 @@ def main(run):
         if nt(t):
             run.nontrivial.add(F.tree_key(t))
     run.evaluations += F.drive_and_judge(run, 'c2s', items, ['flatten', 'c02laws'])
+    run.evaluations += F.drive_and_judge(run, 'classobj', [], ['classobj'])
     run.exhaustive = False
     run.extra['bounds'] = [list(b) for b in bounds]
